@@ -12,7 +12,8 @@ for line in open(os.path.join(d, "eval.txt")):
         ev[k] = v.strip()
 mp = os.path.join(d, "meta.json")
 m = json.load(open(mp))
-m["confirmed"] = {
+if "demo_with_patch_exit" in ev or "confirmed" not in m:
+  m["confirmed"] = {
     "demo_passes_without_patch": ev.get("demo_without_patch_exit") == "0",
     "demo_fails_with_patch": ev.get("demo_with_patch_exit") not in ("0", None),
     "existing_suite_passes_with_patch": ev.get("suite_with_patch_exit") == "0",
